@@ -61,7 +61,8 @@ Print Assumptions C08_critical_sections_are_isolated.
    as some goroutine has not finished, some goroutine can take a step (mutexes are taken in one global
    order, DeferredCarWriter.lk before StorageCar.mu, and nobody ends a call holding a lock).  Channel
    operations and user callbacks are steps that are always enabled in the model; the ones that happen
-   while a lock is held are exactly the reviewed ones listed in the second theorem. *)
+   while a lock is held ([Blk s] is accepted by the discipline with a lock held only if site s is marked
+   listed in i_blk) are among the reviewed ones named in the second theorem. *)
 Theorem C08_no_stuck_configuration :
   forall I, In I facts ->
   forall (progs : list (list act)) (c : cfg),
@@ -72,14 +73,14 @@ Theorem C08_no_stuck_configuration :
 Proof. exact facts_no_deadlock. Qed.
 Print Assumptions C08_no_stuck_configuration.
 
-Theorem C08_blocking_while_holding_a_lock_only_at_listed_sites :
-  map (fun I => (i_name I, map fst (filter (fun e => snd e) (i_blk I)))) facts =
-  [("ReadOnly", ["ReadOnly.AllKeysChan/go0: call maybeReportError"; "ReadOnly.AllKeysChan/go0: select"]);
-   ("ReadWrite", []);
-   ("StorageCar", []);
-   ("DeferredCarWriter", ["DeferredCarWriter.Put: call of a function stored in putCb"])].
+Theorem C08_blocking_while_holding_a_lock_only_at_reviewed_sites :
+  forall I, In I facts ->
+  forall s, In (s, true) (i_blk I) ->
+    In s ["ReadOnly.AllKeysChan/go0: select";
+          "ReadOnly.AllKeysChan/go0: call maybeReportError";
+          "DeferredCarWriter.Put: call of a function stored in putCb"].
 Proof. exact facts_listed_blocking. Qed.
-Print Assumptions C08_blocking_while_holding_a_lock_only_at_listed_sites.
+Print Assumptions C08_blocking_while_holding_a_lock_only_at_reviewed_sites.
 
 (* Linearizability, stated over the atomic-section semantics: every call is an invocation, ONE atomic
    step of the sequential specification (its critical section) and a response.  Every such execution
